@@ -234,12 +234,58 @@ pub fn run(ctx: &Ctx) -> Outcome {
     let mut corpus: Vec<String> = crate::corpus::repo_sources().into_iter().map(|(_, s)| s).collect();
     corpus.push("start A\n#[a(b[c{d(e)f}g]h)i]#[😀😀]\n#[x = \"]\"]\nstruct A\n#[derive(Clone)] // c\n#[derive(Debug)]\nterminal Tok {}\n".into());
     corpus.push(format!("start A\n#[{}]\nstruct A\nterminal Tok {{}}\n", "(".repeat(300) + &")".repeat(300)));
-    for src in &corpus {
-        acc.inc("sources");
-        acc.inc("corpus sources");
-        if let Verdict::Violation(what, e, o) = check_source(src, &mut acc) {
-            acc.finding(finding(src, what, e, o));
+    // attributes at scale and next to related names: distinct attributes on every declaration of the name-relation
+    // space and of the scaled families; 10..257 attributes on one declaration; attributes of 2^8 and 2^16 bytes
+    {
+        let decorate = |src: &str| -> String {
+            let mut out = String::new();
+            let mut k = 0;
+            for line in src.lines() {
+                if line.starts_with("struct ") || line.starts_with("enum ") || line.starts_with("terminal ") {
+                    k += 1;
+                    out += &format!("#[attr{k}]\n#[doc = \"declaration {k} (é)\"] #[k{k}(a[b]{{c}})]\n");
+                }
+                out += line;
+                out.push('\n');
+            }
+            out
+        };
+        for nc in crate::names::relation_cases(ctx.tier.pick(1, 2)) {
+            corpus.push(decorate(&nc.source));
         }
+        for (i, f) in crate::scaled::families(ctx.tier == Tier::Thorough).iter().enumerate() {
+            let case = crate::gramsweep::Case::new(f.g.clone(), crate::scaled::presentation(f, i));
+            if case.rendered.source.len() < 40_000 && !(ctx.tier == Tier::Quick && f.name.starts_with("expr(") && f.g.n > 30) {
+                corpus.push(decorate(&case.rendered.source));
+            }
+        }
+        for k in [9usize, 10, 11, 16, 17, 32, 33, 64, 65, 100, 101, 256, 257] {
+            let many: String = (0..k).map(|i| format!("#[a{i}]\n")).collect();
+            corpus.push(format!("start A\n{many}struct A\n#[only]\nterminal Tok {{}}\n"));
+            corpus.push(format!("start A\n#[only]\nstruct A\n{many}terminal Tok {{}}\n"));
+            let one_line: String = (0..k).map(|i| format!("#[a{i}] ")).collect();
+            corpus.push(format!("start A\n{one_line}\nenum A {{}}\nterminal Tok {{}}\n"));
+        }
+        for n in [253usize, 254, 255, 256, 4096, 65_533, 65_534, 65_535, 65_536, 70_000] {
+            corpus.push(format!("start A\n#[{}]\nstruct A\n#[b]\nterminal Tok {{}}\n", "a".repeat(n)));
+            corpus.push(format!("start A\n#[b]\n#[doc = \"{}\"]\n#[c]\nstruct A\nterminal Tok {{}}\n", "é".repeat(n / 2)));
+        }
+    }
+    let corpus_accs: Vec<Acc> = corpus
+        .par_iter()
+        .map(|src| {
+            let mut a = Acc::default();
+            a.inc("sources");
+            a.inc("corpus sources");
+            if let Verdict::Violation(what, e, o) = check_source(src, &mut a) {
+                let shown: String = if src.len() > 600 { format!("{} ... ({} bytes)", src.chars().take(300).collect::<String>(), src.len()) } else { src.clone() };
+                a.finding(Finding::new("attribute_case", json!({"source": src}), format!("{what} — source {shown:?}"), e, o));
+            }
+            a
+        })
+        .collect();
+    for a in corpus_accs {
+        acc.merge(a);
     }
     if acc.get("accepted sources with attributes") == 0 {
         machinery_error(format!("C12: the verbatim oracle applied to no source at all ({:?})", acc.self_check_errors.first()));
